@@ -25,7 +25,7 @@ func init() {
 		Assumptions: []string{
 			"templates never use date/now; children run with TZ=UTC (the property exempts clock and time zone)",
 			"which order maps iterate in is not asserted, only that it is one order",
-			"bindings are plain data without pointers or Drops inside maps that are printed whole (their text form is Go syntax, covered by no property)",
+			"rebuilds keep the Go representation and change only construction order and capacity; text that spells Go values holding pointers (error messages, json/inspect) can contain addresses and is not covered",
 		},
 		MinEvents: map[string]int64{"executions_compared": 50000, "cross_process_cases": 200},
 		Run:       runC02,
@@ -114,6 +114,8 @@ func c02Gen(r *core.Rand, i int) c02case {
 
 // bind builds the Go bindings; every call constructs fresh maps in a PRNG-permuted order.
 func (cs c02case) bind(r *core.Rand) map[string]any {
+	// the same representation every time (which representation is used is C18's business); only the
+	// construction order and capacity of the maps change
 	b := gen.RealiseEnv(cs.env, r, gen.Rep{})
 	km := make(map[string]any, r.Intn(32))
 	keys := make([]string, 0, len(cs.keyed))
